@@ -207,7 +207,7 @@ func c03GenWkt(r *rng, code string, pathSafe bool) proto.Message {
 			return wrapperspb.String(c03PathString(r))
 		}
 		// the text of a string wrapper that begins and ends with '"' is not quoted by larking: keep to plain ones
-		ss := []string{"a", "x y", "ü", "a&b=c", "+", "null", "0", "a.b", "日本"}
+		ss := []string{"a", "x y", "ü", "a&b=c", "+", "null", "0", "a.b", "日本", "😀", "𝄞 clef", "a𐍈b", "tab\there", "\u00e9 literally"}
 		return wrapperspb.String(ss[r.intn(len(ss))])
 	case "fm":
 		ps := [][]string{{"a"}, {"a", "b_c"}, {"sub.name", "f_int32"}, {"x.y.z"}, {}}
